@@ -557,8 +557,10 @@ def contains(e, heads):
 
 
 def walk(e):
+    """all expression nodes (tuples headed by a tag string) inside e"""
     if isinstance(e, tuple):
-        yield e
+        if e and isinstance(e[0], str):
+            yield e
         for x in e:
             if isinstance(x, tuple):
                 yield from walk(x)
